@@ -2,7 +2,7 @@
    embedding on which the faithful model of the string-concat-in-loop detector breaks the embedding law
    (closed by vm_compute).  The same inputs are in corpus/C19 and are replayed on the implementation on every run. *)
 From TL Require Import Lib.Base Lib.GenTypes Gen.EmbedGen Model.Embed Model.PrintStmt Model.PerfConcat Model.StatelessCls
-     Model.MethodProp Gen.Embed2Gen Model.CondVerbose Model.EmbedRun Model.EmbedRun2 Actual.EmbedActual.
+     Model.MethodProp Gen.Embed2Gen Model.CondVerbose Model.RegexLoop Model.EmbedRun Model.EmbedRun2 Actual.EmbedActual.
 
 (* docs/performance-linter.md, "String Concatenation Detection" *)
 Definition w_doc : list ast :=
@@ -107,4 +107,28 @@ Theorem C19_condverbose_nested_refuted :
   cv_reports cv_actual (plug c_verbose_if w_verbose) = [(4, 12, "", "debug"); (4, 12, "", "debug")]
   /\ cv_reports v_ideal (plug c_verbose_if w_verbose) = shiftRs 1 4 (cv_reports v_ideal w_verbose)
   /\ cv_reports v_ideal w_verbose = [(3, 8, "", "debug")].
+Proof. vm_compute. repeat split; reflexivity. Qed.
+
+(* ---------------------------------------------------------------- regex in loop *)
+(* docs/performance-linter.md Example 2: import re / def extract_emails(lines): for line in lines: match = re.search(.., line) *)
+Definition w_regex : list ast :=
+  [N "body" "Import" 1 0 "" "" [N "names" "alias" 1 7 "re" "" []];
+   N "body" "FunctionDef" 3 0 "extract_emails" "" [N "args" "arguments" 3 0 "" "" [N "args" "arg" 3 19 "lines" "" []];
+     N "body" "For" 4 4 "" "" [N "target" "Name" 4 8 "line" "" []; N "iter" "Name" 4 16 "lines" "" [];
+        N "body" "Assign" 5 8 "" "" [N "targets" "Name" 5 8 "match" "" [];
+           N "value" "Call" 5 16 "" "" [N "func" "Attribute" 5 16 "search" "" [N "value" "Name" 5 16 "re" "" []];
+              N "args" "Constant" 5 26 "x" "str" []; N "args" "Name" 5 31 "line" "" []]]]]].
+(* preceded by an unrelated function with a LOCAL variable re:  def _tv_patterns(_tv_src): import re as _tv_re; re = _tv_re.compile(_tv_src); return re *)
+Definition c_local_re : ctx :=
+  Seq [N "body" "FunctionDef" 1 0 "_tv_patterns" "" [N "args" "arguments" 1 0 "" "" [N "args" "arg" 1 17 "_tv_src" "" []];
+         N "body" "Import" 2 4 "" "" [N "names" "alias" 2 11 "re" "" [N "asname" "@str" 2 11 "_tv_re" "" []]];
+         N "body" "Assign" 3 4 "" "" [N "targets" "Name" 3 4 "re" "" [];
+            N "value" "Call" 3 9 "" "" [N "func" "Attribute" 3 9 "compile" "" [N "value" "Name" 3 9 "_tv_re" "" []]; N "args" "Name" 3 24 "_tv_src" "" []]];
+         N "body" "Return" 4 4 "" "" [N "value" "Name" 4 11 "re" "" []]]] 6 Hole [].
+Theorem C19_regex_file_wide_refuted :
+  rx_ctx_ok c_local_re = true
+  /\ rx_reports rx_actual w_regex = [(5, 16, "mfor", "search")]
+  /\ rx_reports rx_actual (plug c_local_re w_regex) = []
+  /\ rx_reports r_ideal (plug c_local_re w_regex) = shiftRs 6 0 (rx_reports r_ideal w_regex)
+  /\ rx_reports r_ideal w_regex = [(5, 16, "mfor", "search")].
 Proof. vm_compute. repeat split; reflexivity. Qed.
